@@ -864,7 +864,7 @@ class Body:
                 return Expr("fn", path=op["fn"]["path"], info=op["fn"])
             if "int" in op:
                 return Expr("const", v=int(op["int"]), ty=op["ty"])
-            return Expr("text", t=op.get("text", "?"), ty=op["ty"])
+            return Expr("text", t=op.get("text", "?"), ty=op["ty"], bytes=op.get("bytes"), elem_ty=op.get("elem_ty"), len=op.get("len"))
         if k in ("copy", "move"):
             return self.expr_of_place(op["pl"], at, depth, seen)
         return Expr("unknown")
